@@ -50,8 +50,8 @@ type world struct {
 	nodeOf map[common.Uint256]*blockchain.BlockNode
 }
 
-var templates = []string{"P1", "P2", "P3", "W0", "W1", "W2", "R1", "CP", "CR1", "CR2", "CT"}
-var tx3Hashes = []string{"h1", "h2", "h3", "h4"}
+var templates = []string{"P1", "P2", "P3", "W0", "W1", "W2", "W3", "W4", "R1", "CP", "CR1", "CR2", "CT"}
+var tx3Hashes = []string{"h1", "h2", "h3", "h4", "h5", "h6"}
 var draftHashes = []string{"g1", "g2", "g3", "g4"}
 var draftData = map[string][]byte{"g1": []byte("draft one"), "g2": []byte("opinion"), "g3": []byte("message"), "g4": []byte("secretary opinion")}
 
@@ -115,6 +115,10 @@ func newWorld() (*world, error) {
 	}
 	mk("W1", common2.WithdrawFromSideChain, payload.WithdrawFromSideChainVersionV1, &payload.WithdrawFromSideChain{}, nil, []*common2.Output{wout("h3", 102)})
 	mk("W2", common2.WithdrawFromSideChain, payload.WithdrawFromSideChainVersionV2, &payload.WithdrawFromSideChain{Signers: []uint8{0, 1, 2}}, nil, []*common2.Output{wout("h4", 103)})
+	mk("W3", common2.WithdrawFromSideChain, payload.WithdrawFromSideChainVersionV1, &payload.WithdrawFromSideChain{}, nil,
+		[]*common2.Output{out(B, 110), wout("h5", 111)})
+	mk("W4", common2.WithdrawFromSideChain, payload.WithdrawFromSideChainVersionV2, &payload.WithdrawFromSideChain{Signers: []uint8{0, 1, 2}}, nil,
+		[]*common2.Output{out(B, 112), wout("h6", 113)})
 	mk("R1", common2.ReturnSideChainDepositCoin, 0, &payload.ReturnSideChainDepositCoin{}, nil, []*common2.Output{{
 		AssetID: core.ELAAssetID, Value: 104, ProgramHash: A, Type: common2.OTReturnSideChainDepositCoin,
 		Payload: &outputpayload.ReturnSideChainDeposit{Version: 0, GenesisBlockAddress: "XKUh4GLhFJiqAMTF6HyWQrV9pK9HcGUdfJ", DepositTransactionHash: h256("d1")}}})
